@@ -326,6 +326,9 @@ pub fn minimise(prop: &str, oracle: &str, case: &Case, budget: usize) -> (Case, 
             Case::Mem { spec, .. } => {
                 spec.src.drain(at..at + n);
             }
+            Case::MemFn { spec, .. } => {
+                spec.src.drain(at..at + n);
+            }
         };
         let mut block = best.stream_len() / 2;
         while block >= 2 && used < budget {
@@ -370,6 +373,11 @@ pub fn minimise(prop: &str, oracle: &str, case: &Case, budget: usize) -> (Case, 
                     c
                 }
                 Case::Mem { spec, .. } => {
+                    let c = spec.src[j] != b'a' as u16;
+                    spec.src[j] = b'a' as u16;
+                    c
+                }
+                Case::MemFn { spec, .. } => {
                     let c = spec.src[j] != b'a' as u16;
                     spec.src[j] = b'a' as u16;
                     c
